@@ -41,8 +41,17 @@
         reg_terminates         : non-blocking: every run of internal steps from a reachable state
                                  is at most [measure s] long and, when stuck, nothing is busy.
     All invariants together: reg_inv ([Inv0 /\ Inv1 /\ Inv2]), reg_inv7, reg_invl. *)
-From WM Require Import Base.Prelude GoChannel.Reg GoChannel.RegLocks GoChannel.RegInv
-                       GoChannel.RegSend GoChannel.RegLive.
+From WM Require Import Base.Prelude GoChannel.Reg GoChannel.RegWitness GoChannel.RegLocks
+                       GoChannel.RegInv GoChannel.RegSend GoChannel.RegLive.
+
+(** R8 cannot say "every started teardown is DDone" when Close returns: wg.Done() comes before
+    the teardown goroutine's deferred unlocks, so Close may return while a teardown still holds
+    the topic lock and the write lock (here: at DTUnlock).  Same in the Go code. *)
+Example close_returns_before_teardown_unlocks :
+  let s := grun (ginit false false true)
+             (subscribe_all 0 0 9 ++ [GClose 1; GT 1; GT 1] ++ repeat (GD 0) 7 ++ repeat (GT 1) 3) in
+  thr s 1 = CDone /\ td s 0 = DTUnlock 0 /\ tlock s 0 = Some (OwT 0) /\ writer s = Some (OwT 0).
+Proof. vm_compute. repeat split; reflexivity. Qed.
 
 Print Assumptions reg_locks.
 Print Assumptions reg_no_panic.
